@@ -50,6 +50,9 @@ func (m *SimpleModulus) UnmarshalCBOR(data []byte) error {
 	if err != nil {
 		return errs.Wrap(err)
 	}
+	if dto.Modulus == nil {
+		return ErrFailed.WithMessage("modulus must not be nil")
+	}
 	m.m = dto.Modulus
 	return nil
 }
@@ -76,6 +79,9 @@ func (m *OddPrimeFactors) UnmarshalCBOR(data []byte) error {
 	if err != nil {
 		return errs.Wrap(err)
 	}
+	if dto.P == nil || dto.Q == nil {
+		return ErrFailed.WithMessage("p and q must not be nil")
+	}
 	out, ok := NewOddPrimeFactors(dto.P, dto.Q)
 	if ok == ct.False {
 		return ErrFailed.WithMessage("failed to create OddPrimeFactors")
@@ -100,6 +106,9 @@ func (m *OddPrimeSquareFactors) UnmarshalCBOR(data []byte) error {
 	dto, err := serde.UnmarshalCBOR[pairDTO](data)
 	if err != nil {
 		return errs.Wrap(err)
+	}
+	if dto.P == nil || dto.Q == nil {
+		return ErrFailed.WithMessage("p and q must not be nil")
 	}
 	out, ok := NewOddPrimeSquareFactors(dto.P, dto.Q)
 	if ok == ct.False {
